@@ -1,7 +1,7 @@
 """Property registry: Lean obligations and correspondence streams per property."""
 import os
 
-from . import core, gen_enc, gen_dec, gen_fld
+from . import core, gen_enc, gen_dec, gen_fld, gen_val, gen_bld
 from .runner import Spec
 
 SPECS = {}
@@ -12,6 +12,7 @@ DEFAULT_NOTE = ("Trusted: Lean 4.33 kernel; axioms propext, Classical.choice, Qu
                 "standard, not present in the sandbox; C++ object lifetime and aliasing are modelled by immutable values.")
 LEVEL_NOTE = {}
 LEVEL_TEXT = {
+    "C01": "Theorem C01_roundtrip: for EVERY encoder state (any history), every decoder state (any history, even a stale reassembly on the same endpoint), every non-empty batch of well-formed packets (payload 1..65535 bytes that passes its type's validator, message type and payload type byte non-zero, one version >= 1, flags without error-in-payload) and every configuration with 25 <= max, min <= max, decoding the serialised frames in order returns exactly the sent packets (type, bytes, message type, timestamp, interface/vendor id by message type, version, non-segmentation flags, tagged with the encoder's ids) and leaves nothing pending. Proof: parse-after-serialise lemmas for frames, the encoder's fold invariant (pieces), the reassembly theorems of C05, counters from C09/C10; unbounded. Tied to the code by round trips through the real encoder and decoder; the predicate P_C01 of the theorem is evaluated by the Lean driver on the packets the real decoder returned.",
     "C11": "Generic theorems get_set_same / get_set_other / set_frame / set_set_comm / set_set_same / set_get_id over `setField`/`getField` (a field = bit range in a big-endian word), for every buffer, every in-range value and ANY disjoint bit range (table field, flag or reserved bits), instantiated for all 16 class tables by kernel-checked table facts (tables_wf, tables_words_ok, tables_alias_overlap) into C11_all_classes; masks_ok ties the library's private mask constants (regenerated from /repo's headers on every run) to the table's bit ranges. Tied to the setters/getters by the `fld` correspondence (every class, every field, all in-range values up to 8/16 bits, zero/ones/random backgrounds, chains) and the table predicate evaluated on the implementation's raw bytes and getters.",
     "C12": "The model's tables ARE the protocol layout (written from the standard, vlib/layout.py -> Layout.lean); theorems get_is_be / set_is_be say reads and writes are the big-endian value at the table's offset/width/bit position; defaults_ok: default objects are zero apart from the protocol defaults (so reserved bits are zero) and C11_all_classes keeps reserved bits untouched; GenChecks sizes_ok / offsets_ok / masks_ok / enums_ok are `decide` obligations over constants regenerated from /repo's headers on every run (sizeof, offsetof of every member, masks, enum values): a moved member, changed width or mask breaks the build. Behavioural tie: `fld` correspondence in both directions (API write -> raw bytes; hand-laid-out bytes -> getters).",
     "C07": "Theorems C07_frames_wf / C07_C08_bytes / tile_bytes / frame_length / C07_empty: for every encoder state, every batch (payloads 0..65535 bytes) and every configuration with 25 <= max, min <= max, an independent byte-level tiler succeeds on every serialised frame and the decidable predicate P_C07 holds (min <= len <= max, >= 1 message, declared lengths tile the frame, zero padding only up to min, every payload byte exactly once and in order, no frames for an empty batch). Fold invariant over the batch, no bound on sizes. The same P_C07 is evaluated by the Lean driver on the frames the real encoder produced for every generated case.",
@@ -33,7 +34,7 @@ def last_lines(n):
     return lambda case, lines: lines[-n:]
 
 
-reg(Spec("C01", "Encode then decode returns the original packets", [], [], [], gen_enc.gen_c01, batch_predicate=gen_enc.make_batch_pred("C01"),
+reg(Spec("C01", "Encode then decode returns the original packets", ["AsamCmp.Props.C01"], ["AsamCmp.C01.C01_roundtrip"], ["AsamCmp.Props.C01"], gen_enc.gen_c01, batch_predicate=gen_enc.make_batch_pred("C01"),
          view=lambda c, l: l[-3:-1],
          rule="one- and two-packet batches exhaustively over small frame sizes, random batches of 1..12 packets of all payload kinds with lengths at every fit/no-fit boundary; non-trivial = batch contains a segmented packet, a message-type change or a fill-caused frame boundary; distinct by script text"))
 C07_THMS = ["AsamCmp.frame_length", "AsamCmp.C07_empty", "AsamCmp.C07_frames_wf", "AsamCmp.tile_bytes", "AsamCmp.C08_seg_rules", "AsamCmp.C07_C08_bytes"]
@@ -95,6 +96,14 @@ reg(Spec("C12", "Headers and payload fields use the ASAM CMP / TECMP wire layout
          ["AsamCmp.C11.get_is_be", "AsamCmp.C11.set_is_be", "AsamCmp.C11.defaults_ok", "AsamCmp.C11.C11_all_classes", "AsamCmp.C11.tables_wf", "AsamCmp.GenChecks.sizes_ok", "AsamCmp.GenChecks.offsets_ok", "AsamCmp.GenChecks.masks_ok", "AsamCmp.GenChecks.enums_ok"], ["AsamCmp.Props.C11", "AsamCmp.Props.GenChecks"], gen_fld.gen_c12, predicate=gen_fld.pred_c11,
          rule="default-constructed objects; bytes laid out by hand from the protocol table read through every getter; every field written through the API on a default object compared with the table's big-endian position",
          assumptions=["float fields travel as 32-bit patterns; NaN patterns are excluded from generation"]))
+
+
+reg(Spec("C03", "Payloads accepted by validation expose only in-bounds data", [], [], [], gen_val.gen_c03, predicate=gen_val.pred_c03,
+         rule="per class: every buffer length 0..header+8 x {zeros, ones, random}; every inner length field x {0, fits-1, fits, fits+1, max}; every truncation of well-formed status payloads; random content; a 65.6 KiB interface payload with count 0xFFFF; message-level buffers; accessors of decoded and TECMP-converted packets; views are touched byte by byte under ASan"))
+
+
+reg(Spec("C13", "Payload builders store data faithfully and produce self-valid payloads", [], [], [], gen_bld.gen_c13, predicate=gen_bld.pred_c13,
+         rule="every data length 0..255 (CAN/CAN-FD/LIN), {0,1,2,63,64,65,1499,65529}+random (Ethernet/analog), strings 0..40/255/256/1000, id lists of every parity, on default objects and on objects that held longer/shorter/different data (chains of 2..4 setData calls); predicate: raw bytes equal the protocol-table layout of the last call's data with the earlier header fields preserved, validator and decoder accept"))
 
 
 def replay(path):
